@@ -235,7 +235,8 @@ impl Check for C17Delivery {
         parts.push(&bytes[last..]);
         let mut paths: Vec<String> = Vec::new();
         for (k, p) in parts.iter().enumerate() {
-            let path = dir.join(format!("f{}.json", k));
+            // names in non-alphabetical order: the files are processed in the order given
+            let path = dir.join(format!("{}{}.json", ["m", "c", "x", "a"][k % 4], k));
             if std::fs::write(&path, p).is_err() {
                 cleanup();
                 return CaseResult::Discard("cannot write temp file".into());
@@ -333,13 +334,102 @@ impl Check for C17Delivery {
     }
 }
 
+/// Delivery independence on what the position checks cannot use: non-ASCII content (a
+/// multi-byte character split between two reads), long inputs (tens of KiB, so that every
+/// internal buffer is refilled many times), chunk sizes around the usual buffer sizes.
+#[derive(Clone, Debug, Serialize, Deserialize)]
+pub struct CaseWide {
+    pub input: BytesS,
+    pub chunks: Vec<usize>,
+    pub interrupt_every: usize,
+    pub pipeline: u8,
+}
+
+pub struct C17Wide;
+impl Check for C17Wide {
+    type Case = CaseWide;
+    fn name(&self) -> &'static str {
+        "C17.delivery_wide"
+    }
+    fn cases(&self, tier: Tier) -> u64 {
+        tier.pick(3_000, 100_000)
+    }
+    fn strategy(&self, _t: Tier) -> BoxedStrategy<CaseWide> {
+        let input = prop_oneof![
+            6 => arb_stream(CharSet::Full, 12).prop_map(|s| s.bytes),
+            2 => arb_long_stream().prop_map(|s| s.bytes),
+            1 => (arb_stream(CharSet::Bmp, 8), vec(any::<u8>(), 0..6), any::<u16>()).prop_map(|(s, junk, at)| {
+                // some garbage in the middle (also invalid UTF-8)
+                let mut b = s.bytes.0;
+                let p = pick_idx(at, b.len() + 1);
+                b.splice(p..p, junk);
+                BytesS(b)
+            }),
+        ];
+        let chunk = prop_oneof![4 => 1usize..9, 2 => prop::sample::select(vec![15usize, 16, 17, 63, 64, 65, 255, 256, 4095, 4096, 4097, 8191, 8192, 8193]), 1 => 1usize..20000];
+        (input, vec(chunk, 1..5), prop_oneof![Just(0usize), 2usize..6], 0u8..4).prop_map(|(input, chunks, interrupt_every, pipeline)| CaseWide { input, chunks, interrupt_every, pipeline }).boxed()
+    }
+    fn check(&self, c: &CaseWide) -> CaseResult {
+        let bytes = &c.input.0;
+        let args: Vec<String> = match c.pipeline {
+            0 => vec![],
+            1 => sv(&["--select=.=v", "--select=&index=i", "--on-error=stdout"]),
+            2 => sv(&["--on-error=stdout", "--style=pretty"]),
+            _ => sv(&["--select=(stringify .)=s", "--select=&started-at-line-number=l", "--on-error=stderr", "--utf8-strings"]),
+        };
+        let whole = run(&args, bytes);
+        if whole.res.is_panic() {
+            return CaseResult::Fail(format!("panic: {}", whole.res.short()));
+        }
+        let mut schedules = vec![Delivery::Chunks(vec![1]), Delivery::Chunks(c.chunks.clone())];
+        if c.interrupt_every > 0 {
+            schedules.push(Delivery::ChunksInterrupted(c.chunks.clone(), c.interrupt_every));
+        }
+        for d in schedules {
+            let (o, _) = run_spec(&RunSpec { args: args.clone(), stdin: bytes.clone(), delivery: Some(d.clone()), ..Default::default() });
+            if o.stdout != whole.stdout || o.stderr != whole.stderr || o.res != whole.res {
+                return CaseResult::Fail(format!("delivery {:?} changes the output ({} vs {}): {} vs {} [args {:?}, {} input bytes: {}]", d, o.res.short(), whole.res.short(), esc_trunc(&o.stdout, 200), esc_trunc(&whole.stdout, 200), args, bytes.len(), esc_trunc(bytes, 200)));
+            }
+        }
+        // the same bytes as a file
+        let dir = tmp_dir().join(format!("c17w-{}", SEQ.fetch_add(1, Ordering::Relaxed)));
+        let _ = std::fs::create_dir_all(&dir);
+        let path = dir.join("in.json");
+        if std::fs::write(&path, bytes).is_err() {
+            let _ = std::fs::remove_dir_all(&dir);
+            return CaseResult::Discard("cannot write temp file".into());
+        }
+        // error reports name the file, so the comparison with stdin is made without reports
+        let quiet: Vec<String> = args.iter().filter(|x| !x.starts_with("--on-error=")).cloned().collect();
+        let whole = run(&quiet, bytes);
+        let mut a = quiet.clone();
+        a.push(path.to_str().unwrap().to_string());
+        let f = run(&a, b"");
+        let _ = std::fs::remove_dir_all(&dir);
+        if f.stdout != whole.stdout || f.stderr != whole.stderr || f.res != whole.res {
+            return CaseResult::Fail(format!("reading the same bytes from a file differs from stdin: {} vs {} [args {:?}, {} bytes]", esc_trunc(&f.stdout, 200), esc_trunc(&whole.stdout, 200), args, bytes.len()));
+        }
+        CaseResult::Pass(
+            Info::new(bytes.len() >= 2 && !whole.stdout.is_empty())
+                .class_if(!bytes.is_ascii(), "non_ascii")
+                .class_if(std::str::from_utf8(bytes).is_err(), "invalid_utf8")
+                .class_if(bytes.len() > 8192, "longer_than_8KiB")
+                .class_if(c.chunks.iter().any(|x| *x >= 4095), "buffer_sized_chunks")
+                .weight(3)
+                .obs(json!({"bytes": bytes.len(), "chunks": c.chunks, "stdout": esc_trunc(&whole.stdout, 120)})),
+        )
+    }
+}
+
 pub fn run_all(ctx: &mut Ctx) {
     ctx.rule = "0..10 ASCII value texts (independent spellings incl. inner line breaks) with whitespace / touching / garbage gaps x read-chunk schedules (1-byte, random sizes, with Interrupted) x stdin vs file x partitions of the bytes into 1..4 files at arbitrary offsets (also inside a value) x --only-objects-and-arrays. Oracle: identical stdout for every delivery; joint multi-file run = concatenation of single-file runs; &index = 0,1,2.. over the run, &index-in-file restarts per file, &file-name = the path; (line,col) pairs map through the line-feed positions to a byte range that contains the value's text, contiguous with the previous range when nothing lies between. non-trivial = >= 2 files that each yield a row, or >= 3 processed values with >= 2 rows beyond line 1".into();
     ctx.assumptions = vec!["position checks use ASCII content so that byte and character columns coincide".into()];
+    ctx.rule.push_str(". C17.delivery_wide: streams over the full Unicode alphabet, long streams (10-100 KiB) and streams with garbage incl. invalid UTF-8 x chunk schedules (1-byte, 1..8, sizes around 16/64/256/4096/8192, with Interrupted) x 4 pipelines x stdin vs file: identical stdout, stderr and result");
     C17Delivery.run(ctx);
+    C17Wide.run(ctx);
     let _ = std::fs::remove_dir_all(tmp_dir());
 }
 
 pub fn checks() -> Vec<Box<dyn DynCheck>> {
-    vec![Box::new(C17Delivery)]
+    vec![Box::new(C17Delivery), Box::new(C17Wide)]
 }
